@@ -70,6 +70,9 @@ func (p *Parser) parse(dict *Dictionary, parsedFiles map[string]struct{}, f File
 		}
 
 		fields := strings.Fields(line)
+		if len(fields) == 0 {
+			continue
+		}
 		switch {
 		case (len(fields) == 4 || len(fields) == 5) && fields[0] == "ATTRIBUTE":
 			attr, err := p.parseAttribute(fields)
